@@ -198,4 +198,94 @@ def renderFields : (Int × Nat × Nat) × Nat × Nat × Nat × Nat → Bytes
 theorem fmtTs_eq_render (ns : Int) : fmtTs ns = renderFields (tsFields ns) := by
   rfl
 
+/-! ### reading the whole text back (years 0 … 9999) -/
+
+theorem len2 (l : Bytes) (h : l.length = 2) : ∃ a b, l = [a, b] := by
+  match l, h with
+  | [a, b], _ => exact ⟨a, b, rfl⟩
+
+theorem len4 (l : Bytes) (h : l.length = 4) : ∃ a b c d, l = [a, b, c, d] := by
+  match l, h with
+  | [a, b, c, d], _ => exact ⟨a, b, c, d, rfl⟩
+
+/-- the date-time body of a non-negative year is read back field by field at fixed offsets -/
+theorem body_reads_back (y m d hh mm ss : Nat) (tail : Bytes)
+    (hy : y < 10 ^ 4) (hm : m < 10 ^ 2) (hd : d < 10 ^ 2) (hh' : hh < 10 ^ 2) (hmm : mm < 10 ^ 2) (hss : ss < 10 ^ 2) :
+    let t := pad 4 y ++ [45] ++ pad 2 m ++ [45] ++ pad 2 d ++ [84] ++ pad 2 hh ++ [58] ++ pad 2 mm ++ [58] ++ pad 2 ss ++ tail
+    digitsVal (t.take 4) = y ∧ digitsVal ((t.drop 5).take 2) = m ∧ digitsVal ((t.drop 8).take 2) = d ∧
+      digitsVal ((t.drop 11).take 2) = hh ∧ digitsVal ((t.drop 14).take 2) = mm ∧ digitsVal ((t.drop 17).take 2) = ss ∧
+      t.drop 19 = tail := by
+  have ey := digitsVal_pad 4 y hy
+  have em := digitsVal_pad 2 m hm
+  have ed := digitsVal_pad 2 d hd
+  have eh := digitsVal_pad 2 hh hh'
+  have emi := digitsVal_pad 2 mm hmm
+  have es := digitsVal_pad 2 ss hss
+  obtain ⟨y1, y2, y3, y4, hY⟩ := len4 _ (pad_length 4 y)
+  obtain ⟨m1, m2, hM⟩ := len2 _ (pad_length 2 m)
+  obtain ⟨d1, d2, hD⟩ := len2 _ (pad_length 2 d)
+  obtain ⟨h1, h2, hH⟩ := len2 _ (pad_length 2 hh)
+  obtain ⟨i1, i2, hI⟩ := len2 _ (pad_length 2 mm)
+  obtain ⟨s1, s2, hS⟩ := len2 _ (pad_length 2 ss)
+  rw [hY] at ey; rw [hM] at em; rw [hD] at ed; rw [hH] at eh; rw [hI] at emi; rw [hS] at es
+  intro t
+  simp only [t, hY, hM, hD, hH, hI, hS]
+  simp only [List.cons_append, List.nil_append, List.take_succ_cons, List.take_zero, List.drop_succ_cons, List.drop_zero]
+  exact ⟨ey, em, ed, eh, emi, es, trivial⟩
+
+/-- the optional fraction and the final `Z` -/
+def readFrac : Bytes → Nat
+  | 46 :: r => digitsVal (r.dropLast ++ List.replicate (9 - r.dropLast.length) 48)
+  | _ => 0
+
+/-- a reader for the text `fmtTs` writes for years 0 … 9999 (fixed offsets; optional fraction before the final `Z`) -/
+def readTs (t : Bytes) : Int :=
+  let y := digitsVal (t.take 4)
+  let m := digitsVal ((t.drop 5).take 2)
+  let d := digitsVal ((t.drop 8).take 2)
+  let hh := digitsVal ((t.drop 11).take 2)
+  let mm := digitsVal ((t.drop 14).take 2)
+  let ss := digitsVal ((t.drop 17).take 2)
+  let frac := readFrac (t.drop 19)
+  (daysFromCivil (y : Int) m d * 86400 + ((hh * 3600 + mm * 60 + ss : Nat) : Int)) * 1000000000 + (frac : Int)
+
+theorem readTs_fmtTs (ns : Int)
+    (hy0 : 0 ≤ (civil ((ns.fdiv 1000000000).fdiv 86400)).1) (hy1 : (civil ((ns.fdiv 1000000000).fdiv 86400)).1 < 10000) :
+    readTs (fmtTs ns) = ns := by
+  have hrange := civil_in_range ((ns.fdiv 1000000000).fdiv 86400)
+  have hinv := daysFromCivil_civil ((ns.fdiv 1000000000).fdiv 86400)
+  generalize hc : civil ((ns.fdiv 1000000000).fdiv 86400) = c at *
+  obtain ⟨y, m, d⟩ := c
+  simp only at hy0 hy1 hrange hinv
+  generalize hsod : ((ns.fdiv 1000000000).fmod 86400).toNat = sod
+  have hsodlt : sod < 86400 := by
+    rw [Int.fmod_eq_emod_of_nonneg _ (by omega)] at hsod; omega
+  have hsf := sod_fields sod hsodlt
+  generalize hfr : (ns.fmod 1000000000).toNat = frac
+  have hfrlt : frac < 10 ^ 9 := by
+    rw [Int.fmod_eq_emod_of_nonneg _ (by omega)] at hfr; omega
+  have hfmt : fmtTs ns = pad 4 y.toNat ++ [45] ++ pad 2 m ++ [45] ++ pad 2 d ++ [84] ++ pad 2 (sod / 3600) ++ [58] ++
+      pad 2 (sod % 3600 / 60) ++ [58] ++ pad 2 (sod % 60) ++ (fracDigits frac ++ [90]) := by
+    simp only [fmtTs, hc, hsod, hfr, show ¬ (y < 0) by omega, if_false, List.append_assoc]
+  have hb := body_reads_back y.toNat m d (sod / 3600) (sod % 3600 / 60) (sod % 60) (fracDigits frac ++ [90])
+    (by omega) (by omega) (by omega) (by omega) (by omega) (by omega)
+  simp only at hb
+  rw [← hfmt] at hb
+  obtain ⟨b1, b2, b3, b4, b5, b6, b7⟩ := hb
+  have hfrac : readFrac (fracDigits frac ++ [90]) = frac := by
+    by_cases h0 : frac = 0
+    · subst h0; rfl
+    · obtain ⟨ds, e1, _, e3⟩ := frac_reads_back frac (by omega) hfrlt
+      rw [e1]
+      show digitsVal ((ds ++ [90]).dropLast ++ List.replicate (9 - (ds ++ [90]).dropLast.length) 48) = frac
+      rw [List.dropLast_concat]
+      exact e3
+  unfold readTs
+  simp only [b1, b2, b3, b4, b5, b6, b7, hfrac]
+  rw [show ((y.toNat : Nat) : Int) = y by omega, hinv]
+  rw [Int.fmod_eq_emod_of_nonneg _ (by omega)] at hsod hfr
+  rw [Int.fdiv_eq_ediv_of_nonneg _ (by omega), Int.fdiv_eq_ediv_of_nonneg _ (by omega)]
+  rw [Int.fdiv_eq_ediv_of_nonneg _ (by omega)] at hsod
+  omega
+
 end PM.Json
